@@ -1,7 +1,7 @@
 """C02 - Shaping any accepted font with any text is safe, terminating and bounded.  DESIGN.md 4.10 / 5 (C02)."""
 import json, os
 import vlib, corpus
-from checks import engine_common
+from checks import engine_common, utfcommon
 
 
 def hooks_are_neutral(ck, tier, seed):
@@ -26,6 +26,9 @@ def hooks_are_neutral(ck, tier, seed):
 def run(ck, tier, seed):
     hooks_are_neutral(ck, tier, seed)
     engine_common.run_engine(ck, tier, seed, pids=("C02",), with_passloop=True)
+    # texts that end exactly at an inaccessible page, all three encodings, ill-formed tails, over-estimated nChars
+    if not ck.violations:
+        utfcommon.utftext(ck, tier, seed, props=("C02",))
     # the control step whose iteration bound PassLoop.tla establishes is the one the engine executes
     engine_common.controller_trace(ck, tier, seed, vlib.tmpdir("C02ctl"), vlib.build_harness("san"), as_violation=False)
     ck.assumptions += ["bounded work is decided by the GRAPHITE2_VERIF iteration counter against maxRuleLoop x (slots + insert budget + 2), the formula TLC establishes on PassLoop.tla",
